@@ -339,10 +339,25 @@ def oracle_kauri_missing(case):
     known("D14", "Kauri(kernel='precomputed').fit(X) without a kernel matrix returns (warning + linear kernel) instead of raising")
 
 
+def _dyn_case():
+    from .c10 import dynamic_long_case
+    return dynamic_long_case()
+
+
+def _dyn_oracle(case):
+    """the affinity a dynamic path trains and validates with is the named kernel / metric of the features selected when the
+    step began (shared with C10)"""
+    from .c10 import oracle_path
+    out = oracle_path(case)
+    out["nontrivial"] = bool(out.get("counts", {}).get("epochs_on_reduced_selection", 0) > 0)
+    return out
+
+
 def subs():
     return [Sub("named_precomputed_callable", equiv_case(), oracle_equiv, 1200, 15000, "three ways of giving the same affinity"),
             Sub("convenience_vs_generic", generic_case(), oracle_generic, 1500, 20000, "convenience estimators vs explicit GEMINI instances"),
             Sub("path_named_precomputed", path_case(), oracle_path, 400, 5000, "paths with named vs precomputed kernels"),
+            Sub("path_dynamic_affinity", _dyn_case(), _dyn_oracle, 40, 800, "dynamic paths: per-epoch and validation affinities are the named kernel of the selected features"),
             Sub("kernelrim", kernelrim_case(), oracle_kernelrim, 600, 8000, "KernelRIM's base kernel"),
             Sub("kauri", kauri_case(), oracle_kauri, 500, 8000, "Kauri named vs precomputed"),
             Sub("kauri_missing_matrix", kauri_case(), oracle_kauri_missing, 20, 100, "Kauri 'precomputed' without a matrix", shards=False)]
